@@ -312,21 +312,21 @@ extend Holder {
 }
 `
 
-const extZ = `syntax = "proto3";
+const extZ = `syntax = "proto2";
 package y;
 import "x/use.proto";
 message Z {
-  x.Holder h = 1;
-  x.Color c = 2;
+  optional x.Holder h = 1;
+  optional x.Color c = 2;
 }
 `
 
-const extZV0 = `syntax = "proto3";
+const extZV0 = `syntax = "proto2";
 package y;
 import "x/use.proto";
 message Z {
-  x.Holder h = 1;
-  x.Color c = 2;
+  optional x.Holder h = 1;
+  optional x.Color c = 2;
   message Old {}
 }
 `
